@@ -233,6 +233,46 @@ fn structural<T: W>(a: &M, d: &DenseMatrix<T>, fi: usize, fs: FillSet) -> String
         "flatten" => {
             expect_v::<T>(&Cx { op: "dense.iter", class: sc, what: &w0 }, mc::guard(|| d.iter().collect::<Vec<T>>()), &a.v, None);
             expect_v::<T>(&Cx { op: "dense.to_row_vector", class: sc, what: &w0 }, mc::guard(|| d.clone().to_row_vector()), &a.v, None);
+            // positional consumption of the element iterator: k x next(), then nth(j) / skip / step_by —
+            // every (k, j) on the short shapes, the iterator being part-way through a row
+            let n = a.v.len();
+            if n <= 12 && fi < 4 {
+                let k = mc::choose(n + 1);
+                let j = mc::choose(n + 1);
+                let st = 1 + mc::choose(3);
+                let got = mc::guard(|| {
+                    let mut it = d.iter();
+                    for _ in 0..k {
+                        it.next();
+                    }
+                    let mut it2 = d.iter();
+                    for _ in 0..k {
+                        it2.next();
+                    }
+                    let mut it3 = d.iter();
+                    for _ in 0..k {
+                        it3.next();
+                    }
+                    (it.nth(j), it2.skip(j).collect::<Vec<T>>(), it3.step_by(st).collect::<Vec<T>>())
+                });
+                let w = desc::<T>(a, fi, fs, format!(" iter(): {} x next(), then nth({}) / skip({}) / step_by({})", k, j, j, st));
+                match got {
+                    Ok((nth, skipped, stepped)) => {
+                        let want_nth: Option<f64> = a.v.get(k + j).copied();
+                        let got_nth: Option<f64> = nth.map(|x| x.to_f64().unwrap());
+                        if want_nth.map(|x| x.to_bits()) != got_nth.map(|x| x.to_bits()) {
+                            Cx { op: "dense.iter", class: sc, what: &w }.fail(":nth-after-next", format!("nth returned {:?}, the row-major element is {:?}", got_nth, want_nth));
+                        }
+                        let want_skip: Vec<f64> = a.v.iter().skip(k + j).cloned().collect();
+                        expect_v::<T>(&Cx { op: "dense.iter:skip-after-next", class: sc, what: &w }, Ok(skipped), &want_skip, None);
+                        let want_step: Vec<f64> = a.v.iter().skip(k).step_by(st).cloned().collect();
+                        expect_v::<T>(&Cx { op: "dense.iter:step_by-after-next", class: sc, what: &w }, Ok(stepped), &want_step, None);
+                    }
+                    Err(p) => Cx { op: "dense.iter", class: sc, what: &w }.fail(":positional-panic", p.brief()),
+                }
+                mc::count("iter_positional_after_next");
+                return format!("iter/nth({},{},{})", k, j, st);
+            }
         }
         "transpose" => {
             let want = a.tr();
@@ -605,8 +645,15 @@ fn reduce<T: W>(a: &M, d: &DenseMatrix<T>, fi: usize, fs: FillSet, adj: bool) ->
         "scale" => {
             let axis = mc::choose(2) as u8;
             let lanes = if axis == 0 { c } else { r };
-            let mean: Vec<f64> = (0..lanes).map(|i| rt::<T>(i as f64 + 0.5)).collect();
-            let std: Vec<f64> = (0..lanes).map(|i| rt::<T>(2.0 + i as f64)).collect();
+            // (mean, std) tables: ordinary; a large mean with a spread of the order of ONE unit in the
+            // last place of the mean (1e7 in f32 has ulp 1, 1e15 in f64 has ulp 0.125); zero mean
+            let table = mc::choose(3);
+            let big = if T::EPS > 1e-10 { 1e7 } else { 1e15 };
+            let mean: Vec<f64> = (0..lanes).map(|i| rt::<T>(match table { 0 => i as f64 + 0.5, 1 => big + i as f64, _ => 0.0 })).collect();
+            let std: Vec<f64> = (0..lanes).map(|i| rt::<T>(match table { 0 => 2.0 + i as f64, 1 => 0.5 + 0.125 * i as f64, _ => 0.5 + i as f64 })).collect();
+            if table == 1 {
+                mc::count("scale_mut_std_below_ulp_of_mean");
+            }
             let want = M::new(r, c, |i, j| {
                 let l = if axis == 0 { j } else { i };
                 rt::<T>(rt::<T>(a.at(i, j) - mean[l]) / std[l])
